@@ -144,19 +144,22 @@ TransportFilter(c) == IF c.wrap THEN c.adv
                       ELSE IF c.tr \in {"stateful", "statefulnosid"} THEN Legacy   \* t.Stateless = FALSE
                       ELSE V                  \* computed per session in Server.Connect: c.prior plays no role
 
-\* reply to server/discover carrying _meta.protocolVersion = r
-DiscReply(c, r) ==
+\* reply to server/discover carrying _meta.protocolVersion = r; lst = the list of versions the discover handler reads
+\* (Server.discover: the list Server.Connect computed for THIS session's transport - see NegotiateConc for what
+\* happens when several connections of one Server are in progress at once)
+DiscReplyWith(c, r, lst) ==
   IF c.disc \in HttpDiscs THEN [k |-> "http", data |-> {}]          \* the front answers before any MCP server sees the probe
   ELSE IF r \notin V THEN [k |-> "unsupp", data |-> V]                   \* ServerSession.handle, before middleware; unfiltered list
   ELSE IF c.disc = "notfound" THEN [k |-> "other", data |-> {}]
   ELSE IF c.disc = "unsupp" THEN [k |-> "unsupp", data |-> Legacy]
-  ELSE [k |-> "ok", data |-> TransportFilter(c)]                    \* Server.discover
+  ELSE [k |-> "ok", data |-> lst]                                   \* Server.discover
+DiscReply(c, r) == DiscReplyWith(c, r, TransportFilter(c))
 
 \* one iteration of the discover loop in Client.Connect
 \* a plain HTTP error to the discover POST: streamableClientConn.Write wraps it with ErrRejected (the call fails, the
 \* connection lives); sseClientConn.Write returns it bare, jsonrpc2 records a write error and the connection is dead
-Round(c, r) ==
-  LET rep == DiscReply(c, r) IN
+RoundWith(c, r, lst) ==
+  LET rep == DiscReplyWith(c, r, lst) IN
   IF rep.k = "http" THEN [k |-> IF c.tr = "sse" THEN "dead" ELSE "break", v |-> ""]
   ELSE IF rep.k = "ok" THEN
     LET n == IF r \in rep.data THEN r ELSE NegMutual(rep.data) IN
@@ -165,6 +168,7 @@ Round(c, r) ==
     LET n == NegMutual(rep.data) IN
     IF n # "" /\ n \in Modern THEN [k |-> "retry", v |-> n] ELSE [k |-> "break", v |-> ""]
   ELSE [k |-> "break", v |-> ""]
+Round(c, r) == RoundWith(c, r, TransportFilter(c))
 
 Sess(v, nd, init) == [kind |-> "session", version |-> v, nDisc |-> nd, sentInit |-> init, listOK |-> TRUE, callOK |-> TRUE]
 Err(nd, init) == [kind |-> "error", version |-> "", nDisc |-> nd, sentInit |-> init, listOK |-> FALSE, callOK |-> FALSE]
@@ -181,15 +185,18 @@ InitVia(c, pv, nd) == LET a == InitAnswer(c, pv) IN
                       ELSE IF a \in Modern THEN Err(nd, TRUE)
                       ELSE Sess(a, nd, TRUE)
 
-Expected(c) ==
+\* the whole connect procedure when the discover handler serves lst
+ExpectedServed(c, lst) ==
   LET r == Req(c) IN
   IF ~ModernStr(r) THEN InitVia(c, r, 0)
-  ELSE LET r1 == Round(c, r) IN
+  ELSE LET r1 == RoundWith(c, r, lst) IN
        IF r1.k = "session" THEN Sess(r1.v, 1, FALSE)
        ELSE IF r1.k = "dead" THEN Err(1, FALSE)
        ELSE IF r1.k = "break" THEN InitVia(c, LatestLegacy, 1)
-       ELSE LET r2 == Round(c, r1.v) IN
+       ELSE LET r2 == RoundWith(c, r1.v, lst) IN
             IF r2.k = "session" THEN Sess(r2.v, 2, FALSE) ELSE InitVia(c, LatestLegacy, 2)
+\* a connection on its own: the list is the one computed for its transport
+Expected(c) == ExpectedServed(c, TransportFilter(c))
 
 \* ------------------------------------------------------------- signatures
 \* abstract class of a failing (case, outcome): which clause, how the session was made, where
